@@ -560,6 +560,7 @@ func init() {
 		Covers:   []string{"C17.end"},
 		Bounds:   "tunnel client (pushInbound directly and through handleTunnelReq in UDP and TCP mode), router client and the group layer; bursts of 2..3 (thorough ..5) accepted telegrams; consumer always waiting, absent for the whole burst, or taking one telegram and then stalling; every interleaving of the server side, the parked delivery goroutines and the consumer",
 		Outside:  "bursts longer than 5; the runtime's FIFO order among senders that are already blocked is not modelled (any blocked sender may be served), which only adds schedules",
+		Assume:   []string{"the pinned tree reordered overflowed telegrams (per-telegram goroutines); repaired by the fix: commit recorded in known_findings.json, so all consumer behaviours are enforced now"},
 	})
 
 	c14 := func(thorough bool) []Inst {
@@ -674,8 +675,7 @@ func init() {
 					if !thorough && closers == 2 && rd == 0 && sc != 4 {
 						continue
 					}
-					out = append(out, Inst{Pkg: "knx", Fn: "HarnessC10", Args: []int64{sc, closers, rd}, Ctx: ctx, Race: true, MaxSched: 30000,
-						KnownRaces: []string{"Tunnel.control", "Tunnel.channel"}})
+					out = append(out, Inst{Pkg: "knx", Fn: "HarnessC10", Args: []int64{sc, closers, rd}, Ctx: ctx, Race: true, MaxSched: 30000})
 				}
 			}
 		}
@@ -685,8 +685,7 @@ func init() {
 		}
 		for late := int64(0); late < 2; late++ {
 			for end := int64(0); end < 3; end++ {
-				out = append(out, Inst{Pkg: "knx", Fn: "HarnessC10Relay", Args: []int64{late, end}, Ctx: ctx + 1, Race: true,
-					KnownRaces: []string{"Tunnel.control", "Tunnel.channel"}, Note: "late response while the server goroutine ends"})
+				out = append(out, Inst{Pkg: "knx", Fn: "HarnessC10Relay", Args: []int64{late, end}, Ctx: ctx + 1, Race: true, Note: "late response while the server goroutine ends"})
 			}
 		}
 		return out
